@@ -17,6 +17,7 @@
     units.parse   <sys> <string>             -> ok <scale|nan> <offset> | err
     units.newdim  <sys> <string>             -> ok <scale|nan> <offset> | err
     units.item    <active> <default> <values> <calls>  -> observation;observation;…
+    units.uda     <active> <default> <values> <i>      -> x:<si bits> | undef <scale> <offset> | err
     units.kwitem  <KEYWORD.record.ITEM>      -> dim,dim,… | none        (JSON side of one parser item)
     units.kwitemcount                        -> number of dimensioned items on the JSON side
     units.sol     <sys> <calls F|T…> <m:x,x;m:x…>  -> <si 0|1> <m:x,x;…>   (data::Solution conversions)
@@ -154,6 +155,16 @@ def handle (op : String) (args : List String) : String :=
     match keywordItemDims.find? (·.1 == key) with
     | some (_, ds) => ",".intercalate ds
     | none => "none"
+  | "units.uda", [a, d, v, i] =>
+    match parseList parseDimF a, parseList parseDimF d, parseList parseVal v, i.toNat? with
+    | some act, some dfl, some vals, some idx =>
+      let it : Item Float := { dval := vals.map (·.2), status := vals.map (·.1), rawData := true,
+                               active := act, dflt := dfl }
+      match it.uda idx with
+      | .si x => "x:" ++ showFloat x
+      | .undefined dm => "undef " ++ showDimF dm
+      | .err => "err"
+    | _, _, _, _ => "bad-op"
   | "units.kwitemcount", [] => toString keywordItemDims.length
   | "units.sol", [s, calls, cells] =>
     match sysAt Float s, (if cells = "-" then some [] else (cells.splitOn ";").mapM parseCell) with
